@@ -191,6 +191,48 @@ example :
     Deser.omapDecode 1 1 [2, 0, 0, 0, 5, 0xaa, 6, 0xbb] = (.ok, 8, 2) := by
   decide
 
+theorem omapLoop_zero_key_seen (vw k : Nat) (b : Bytes) (acc : Nat) (seen : List Bytes)
+    (h : seen.contains ([] : Bytes) = true) : (Deser.omapLoop 0 vw k b acc seen).2.2 ≤ 1 := by
+  cases k with
+  | zero => simp [Deser.omapLoop]
+  | succ k =>
+    have h' : ([] : Bytes) ∈ seen := by simpa using h
+    simp [Deser.omapLoop, h']
+
+theorem omapLoop_zero_key (vw k : Nat) (b : Bytes) (acc : Nat) (seen : List Bytes) :
+    (Deser.omapLoop 0 vw k b acc seen).2.2 ≤ 2 := by
+  cases k with
+  | zero => simp [Deser.omapLoop]
+  | succ k =>
+    simp only [Deser.omapLoop]
+    split
+    · simp
+    · split
+      · simp
+      · split
+        · simp
+        · have := omapLoop_zero_key_seen vw k (b.drop (0 + vw)) (acc + 0 + vw) (b.take 0 :: seen) (by simp)
+          simp only
+          omega
+
+/-- **The rounds of `SerializableOrderedMap.Decode` are bounded by the input for EVERY key and value width — zero-width keys
+included**: a key type with an empty encoding yields the same key in every round, and the second one is refused as a
+duplicate; so no hypothesis about the widths is needed (compare `C02_iters_linear`, where sequences have no such rejection
+and need `pos`). -/
+theorem C02_omap_rounds_unconditional (kw vw : Nat) (b : Bytes) : (Deser.omapDecode kw vw b).2.2 ≤ b.length + 2 := by
+  cases kw with
+  | zero =>
+    simp only [Deser.omapDecode]
+    split
+    · simp
+    · have := omapLoop_zero_key vw (leNat (b.take 4)) (b.drop 4) 4 []
+      omega
+  | succ kw =>
+    have := (C02_omap_total (kw + 1) vw b).2.2 (by omega)
+    omega
+
+example : Deser.omapDecode 0 0 [0xff, 0xff, 0xff, 0xff] = (.err, 0, 2) ∧ Deser.omapDecode 0 0 [1, 0, 0, 0] = (.ok, 4, 1) ∧
+    Deser.omapDecode 0 1 [2, 0, 0, 0, 7, 8] = (.err, 0, 2) := by decide
 /-- `typeutils.Uint64FromBytes` / `ByteArray32FromBytes`: the consumed count never exceeds the input. -/
 theorem C02_typeutils_consumed_le (n : Nat) (b v : Bytes) (c : Nat) (h : Deser.fromBytesFixed n b = some (v, c)) :
     c ≤ b.length := by
